@@ -14,6 +14,7 @@ import sys
 import core
 
 PROPS = ['Props/C18.lean']
+PART_WALL = {}
 SCEN_OF_KIND = {'frame': 'scen_frame', 'sock': 'scen_sock', 'pipe': 'scen_sock', 'pipeip': 'scen_pipe'}
 MODEL_OF_KIND = {'frame': 'frame', 'sock': 'mux', 'pipeip': 'pipe'}
 
@@ -128,6 +129,9 @@ def _pipe_part(chk, n):
         dist['messages'] = dist.get('messages', 0) + res['nmsg']
         dist['frames_compared'] = dist.get('frames_compared', 0) + len(res['frames'])
         dist['max_message_bytes'] = max([dist.get('max_message_bytes', 0)] + [e[2] for e in res['events']])
+        if res.get('retried_after'):
+            dist['retried_after_time_out'] = dist.get('retried_after_time_out', 0) + 1
+        dist['max_case_wall_s'] = max(dist.get('max_case_wall_s', 0), res.get('wall', 0))
         if not sampled and 2 <= res['nmsg'] <= 4 and max([e[2] for e in res['events']] + [0]) < 200:
             sampled.append(1)
             chk.sample(dict(case=case, trace=res['trace']))
@@ -154,9 +158,19 @@ def _sock_part(chk, n_sock, n_pipe):
 
     def visit(case, res):
         walls.append(res.get('wall') or 0)
+        if (res.get('wall') or 0) >= dist.get('slowest_case', {}).get('wall', 0):
+            dist['slowest_case'] = dict(wall=res.get('wall') or 0, kind=case['kind'], mode=case.get('mode'), nconn=case.get('nconn'),
+                                        requesters=case.get('nthreads'), requests=len(case.get('reqs', [])),
+                                        boundary=case.get('boundary'), timing=res.get('timing'), retried_after=res.get('retried_after'))
+        if res.get('retried_after'):
+            dist['retried_after_time_out'] = dist.get('retried_after_time_out', 0) + 1
         key = case['kind'] + (':' + case['mode'] if case['kind'] == 'sock' else '')
         dist[key] = dist.get(key, 0) + 1
         if case['kind'] == 'sock':
+            if res.get('shutdown_problem'):
+                dist['shutdown_request_unanswered(outside C18)'] = dist.get('shutdown_request_unanswered(outside C18)', 0) + 1
+            if res.get('server_stopped') is False:
+                dist['server_not_stopped_in_5s(outside C18)'] = dist.get('server_not_stopped_in_5s(outside C18)', 0) + 1
             dist['requests'] = dist.get('requests', 0) + len(case['reqs'])
             dist['handler_completions_overtaking'] = dist.get('handler_completions_overtaking', 0) + (res.get('reordered') or 0)
             dist['sends_with_other_events_before_registration'] = \
@@ -188,11 +202,15 @@ def run(chk):
         sys.path.insert(0, str(core.REPO / 'src'))     # the parent only uses pure helpers of the scenario modules
     chk.audit(PROPS)
     quick = chk.tier == 'quick'
-    for part in (lambda: _frame_part(chk, 800 if quick else 10000),
-                 lambda: _pipe_part(chk, 80 if quick else 1200),
-                 lambda: _sock_part(chk, 48 if quick else 480, 12 if quick else 100)):
+    import time as _t
+    PART_WALL['audit'] = _t.time() - chk.t0
+    for name, part in (('frame', lambda: _frame_part(chk, 800 if quick else 10000)),
+                       ('pipeip', lambda: _pipe_part(chk, 80 if quick else 1200)),
+                       ('sock+pipe', lambda: _sock_part(chk, 48 if quick else 480, 12 if quick else 100))):
+        t1 = _t.time()
         try:
             part()
+            PART_WALL[name] = _t.time() - t1
         except (core.InfraError, AttributeError) as e:
             # a harness problem after a failing input has already been found must not hide the finding
             # (AttributeError: core.Pool.close() called twice after a worker time-out)
@@ -212,6 +230,7 @@ def run(chk):
         'pipe (E4): pipe.Server / pipe.Client in two processes, objects both ways concurrently. '
         'non-trivial = frame: >=2 chunkings and (>=2 records or cut/malformed); pipeip/pipe: >=2 messages; sock: >=2 requests '
         'and >=2 responses read; distinct = distinct (case, observed event shape / stream digest).')
+    chk.cov['distribution']['part_wall_s'] = {k: round(v, 1) for k, v in PART_WALL.items()}
     chk.trusted += TRUSTED
     chk.assumptions += ASSUMPTIONS
 
